@@ -92,7 +92,8 @@ pub trait Metadata {
     fn duration(&self) -> Option<std::time::Duration> {
         const NANOS_PER_SEC: u64 = 1_000_000_000;
 
-        let sample_rate = u64::from(self.sample_rate());
+        // a sample rate of 0 (non-audio data) has no meaningful duration
+        let sample_rate = u64::from(NonZero::new(self.sample_rate())?.get());
 
         self.total_samples().map(|s| {
             std::time::Duration::new(
